@@ -751,9 +751,210 @@ func (w *World) guardedByPathAtCallers(fn *ssa.Function, v ssa.Value, path strin
 		if w.guardedByPath(e.Site.Block(), p2, ctxs) {
 			continue
 		}
+		// a table of handlers: the callee is the `apply` member of a record whose `handles` member said yes to the same node
+		if w.guardedBySiblingPredicate(e.Site, fn, idx, suffix, ctxs) {
+			continue
+		}
 		return false
 	}
 	return real > 0
+}
+
+type funcTableKey struct {
+	arr ssa.Value
+	idx int64
+}
+
+var funcTablesMemo map[funcTableKey]map[int]*ssa.Function
+
+// funcTables: records with function-valued members that are filled element by element (the backing array of a slice or array literal
+// of handler records): (array, index) -> member index -> function.
+func (w *World) funcTables() map[funcTableKey]map[int]*ssa.Function {
+	if funcTablesMemo != nil {
+		return funcTablesMemo
+	}
+	out := map[funcTableKey]map[int]*ssa.Function{}
+	for fn := range w.allFuncs {
+		if p := pkgOfFunc(fn); fn.Blocks == nil || (p != w.Parser && p != w.Model && p != w.Cmd) {
+			continue // package initialisers included: that is where table literals are filled
+		}
+		forEachInstr(fn, func(_ *ssa.BasicBlock, ins ssa.Instruction) {
+			st, ok := ins.(*ssa.Store)
+			if !ok {
+				return
+			}
+			var f *ssa.Function
+			switch v := stripIdentity(st.Val).(type) {
+			case *ssa.Function:
+				f = v
+			case *ssa.MakeClosure:
+				f, _ = v.Fn.(*ssa.Function)
+			}
+			if f == nil {
+				return
+			}
+			fa, ok := st.Addr.(*ssa.FieldAddr)
+			if !ok {
+				return
+			}
+			// one record = one base: the element slot filled in place, or the literal's own local that is copied into the slot
+			key := funcTableKey{fa.X, 0}
+			if ia, ok := fa.X.(*ssa.IndexAddr); ok {
+				if k, ok := ia.Index.(*ssa.Const); ok && k.Value != nil {
+					key = funcTableKey{ia.X, k.Int64()}
+				}
+			}
+			if out[key] == nil {
+				out[key] = map[int]*ssa.Function{}
+			}
+			out[key][fa.Field] = f
+		})
+	}
+	if os.Getenv("FINLINT_DEBUG_TABLES") != "" {
+		fmt.Fprintf(os.Stderr, "funcTables: %d entries\n", len(out))
+	}
+	funcTablesMemo = out
+	return out
+}
+
+// guardedBySiblingPredicate: site calls member A of a record (`h.apply(.., node, ..)`), under the true edge of a call of member G of
+// the same record on the same node (`h.handles(node)`); in every table entry whose member A is fn, member G is a predicate that
+// returns true only when node<suffix> is not nil.
+func (w *World) guardedBySiblingPredicate(site ssa.CallInstruction, fn *ssa.Function, idx int, suffix string, ctxs map[string]*CtxInfo) bool {
+	memberOf := func(v ssa.Value) (ssa.Value, int, bool) {
+		ld, ok := stripIdentity(v).(*ssa.UnOp)
+		if !ok || ld.Op != token.MUL {
+			if fv, ok := stripIdentity(v).(*ssa.Field); ok {
+				return fv.X, fv.Field, true
+			}
+			return nil, 0, false
+		}
+		fa, ok := ld.X.(*ssa.FieldAddr)
+		if !ok {
+			return nil, 0, false
+		}
+		return fa.X, fa.Field, true
+	}
+	base, fieldA, ok := memberOf(site.Common().Value)
+	if os.Getenv("FINLINT_DEBUG_TABLES") != "" {
+		fmt.Fprintf(os.Stderr, "sibling: site %s value %T ok=%v\n", site, stripIdentity(site.Common().Value), ok)
+	}
+	if !ok || site.Common().IsInvoke() || idx >= len(site.Common().Args) {
+		return false
+	}
+	node := site.Common().Args[idx]
+	caller := site.Parent()
+	for _, bb := range caller.Blocks {
+		cond := branchCond(bb)
+		if cond == nil {
+			continue
+		}
+		neg := false
+		c := cond
+		for {
+			if u, ok := c.(*ssa.UnOp); ok && u.Op == token.NOT {
+				neg = !neg
+				c = u.X
+				continue
+			}
+			break
+		}
+		pc, ok := c.(*ssa.Call)
+		if !ok || pc.Call.IsInvoke() || pc.Call.StaticCallee() != nil {
+			continue
+		}
+		base2, fieldG, ok := memberOf(pc.Call.Value)
+		if !ok || fieldG == fieldA || !(base2 == base || sameCellValue(base2, base) || sameElemAddr(base2, base)) {
+			continue
+		}
+		j := -1
+		for i, a := range pc.Call.Args {
+			if a == node || sameCellValue(a, node) {
+				j = i
+			}
+		}
+		if j < 0 {
+			continue
+		}
+		succ := 0
+		if neg {
+			succ = 1
+		}
+		if !edgeDominates(bb, succ, site.Block()) {
+			continue
+		}
+		// every table entry that holds fn as member A: its member G implies the path
+		found, all := false, true
+		for _, entry := range w.funcTables() {
+			if entry[fieldA] != fn {
+				continue
+			}
+			found = true
+			g := entry[fieldG]
+			if g == nil || j >= len(g.Params) || !w.predicateImpliesNonNil(g, g.Params[j], suffix, ctxs) {
+				all = false
+			}
+		}
+		if found && all {
+			return true
+		}
+	}
+	return false
+}
+
+// sameElemAddr: two loads / addresses of the same element of the same table in one iteration (`&table[i]` computed twice, or the
+// loop variable's copy of it).
+func sameElemAddr(a, b ssa.Value) bool {
+	ia, ok1 := stripIdentity(a).(*ssa.IndexAddr)
+	ib, ok2 := stripIdentity(b).(*ssa.IndexAddr)
+	return ok1 && ok2 && ia.X == ib.X && ia.Index == ib.Index
+}
+
+// predicateImpliesNonNil: the bool function g returns true only where param<suffix> is not nil.
+func (w *World) predicateImpliesNonNil(g *ssa.Function, param ssa.Value, suffix string, ctxs map[string]*CtxInfo) bool {
+	if g.Blocks == nil {
+		return false
+	}
+	want := fmt.Sprintf("%p", param) + suffix
+	var implies func(v ssa.Value, depth int) bool
+	implies = func(v ssa.Value, depth int) bool {
+		if depth > 4 {
+			return false
+		}
+		switch x := v.(type) {
+		case *ssa.Const:
+			return x.Value != nil && x.Value.Kind() == constant.Bool && !constant.BoolVal(x.Value)
+		case *ssa.Phi:
+			for _, e := range x.Edges {
+				if !implies(e, depth+1) {
+					return false
+				}
+			}
+			return true
+		case *ssa.BinOp:
+			if y, nn, ok := nilTest(x); ok && nn == 0 {
+				return w.accessPath(y, ctxs, 0) == want
+			}
+		}
+		return false
+	}
+	any := false
+	for _, b := range g.Blocks {
+		ret, ok := b.Instrs[len(b.Instrs)-1].(*ssa.Return)
+		if !ok || len(ret.Results) != 1 {
+			continue
+		}
+		any = true
+		if implies(ret.Results[0], 0) {
+			continue
+		}
+		// or the return sits under the non-nil edge of a test of the path
+		if w.guardedByPath(b, want, ctxs) {
+			continue
+		}
+		return false
+	}
+	return any
 }
 
 // ---------- Rule G ----------
@@ -1192,6 +1393,12 @@ func (w *World) assertJustified(fn *ssa.Function, ta *ssa.TypeAssert, ctxs map[s
 			}
 		}
 	}
+	// (xi) an element of a local list filled only under a type switch
+	if !toIface {
+		if why := w.elemOfTypeFilteredList(ta); why != "" {
+			return why
+		}
+	}
 	// interface-to-interface where the static type already implements the target
 	if toIface && staticImplements(ta.X.Type(), ta.AssertedType) {
 		if _, isParam := ta.X.(*ssa.Parameter); !isParam {
@@ -1584,7 +1791,11 @@ func (w *World) paramAlwaysImplements(fn *ssa.Function, p *ssa.Parameter, target
 		case *ssa.UnOp:
 			// element of an AllX() slice
 			if ia, ok := x.X.(*ssa.IndexAddr); ok {
-				if c, ok := ia.X.(*ssa.Call); ok {
+				base := stripIdentity(ia.X)
+				if sv := cellSingleValue(base); sv != nil {
+					base = sv // the list is held in a variable a closure captures
+				}
+				if c, ok := base.(*ssa.Call); ok {
 					if _, ai, ok := w.accessorOf(c, ctxs); ok && ai.Known && strings.HasSuffix(ai.What, "*") {
 						okArg = staticImplements(x.Type(), target)
 					}
@@ -3319,7 +3530,12 @@ func cellOf(v ssa.Value) *ssa.Alloc {
 	if !ok || ld.Op != token.MUL {
 		return nil
 	}
-	switch x := ld.X.(type) {
+	return cellOfAddr(ld.X)
+}
+
+// cellOfAddr: the same for the address itself.
+func cellOfAddr(addr ssa.Value) *ssa.Alloc {
+	switch x := addr.(type) {
 	case *ssa.Alloc:
 		return x
 	case *ssa.FreeVar:
